@@ -43,6 +43,13 @@ InnerHeaderF(H, r, fuel) ==
 InnerExiting(H, r) == InnerExitingF(H, r, Cardinality(DOMAIN H) + 1)
 InnerHeader(H, r)  == InnerHeaderF(H, r, Cardinality(DOMAIN H) + 1)
 
+\* the declared headers below r: header(r), header(header(r)), ... down to the innermost block
+RECURSIVE HeaderChainF(_, _, _)
+HeaderChainF(H, r, fuel) ==
+  IF r \notin DOMAIN H \/ fuel = 0 \/ H[r].k # "region" THEN {}
+  ELSE {H[r].header} \cup HeaderChainF(H, H[r].header, fuel - 1)
+HeaderChain(H, r) == HeaderChainF(H, r, Cardinality(DOMAIN H) + 1)
+
 \* the chain r, exiting(r), exiting(exiting(r)), ... down to the innermost block
 RECURSIVE ExitChainF(_, _, _)
 ExitChainF(H, r, fuel) ==
